@@ -239,6 +239,57 @@ theorem gen_unitTangent_eq_model (p : Path V K) : genUnitTangent dot sqrt p = p.
 
 end tangent
 
+/-! ### reads: `energy`, `grad_energy`, `force`, `arccoord`, the range check of `interpolate_path` -/
+section reads
+variable {K V : Type} [Field K] [LinearOrder K] [IsStrictOrderedRing K] [AddCommGroup V] [Module K V]
+variable (dot : V → V → K) (sqrt : K → K)
+
+theorem gen_energy_eq_model (p : Path V K) (c : List V) :
+    genEnergy p none = p.energy ∧ genEnergy p (some c) = p.energyAt c := ⟨rfl, rfl⟩
+
+theorem gen_gradEnergy_eq_model (p : Path V K) (c : List V) :
+    genGradEnergy p none = p.gradEnergy ∧ genGradEnergy p (some c) = p.gradAt c := ⟨rfl, rfl⟩
+
+theorem gen_force_eq_model (p : Path V K) : genForce dot sqrt p = p.force dot sqrt := by
+  simp only [genForce, Path.force, Np.ew, gen_unitTangent_eq_model, (gen_gradEnergy_eq_model p []).1]
+
+theorem gen_interpRefuses_eq_model (α t : List K) : genInterpRefuses α t = interpRefuses α t := rfl
+
+theorem cumsum_eq_prefix_sums (acc : K) (l : List K) :
+    Path.cumsum acc l = (List.range (l.length + 1)).map (fun i => acc + (List.take i l).sum) := by
+  induction l generalizing acc with
+  | nil => simp [Path.cumsum]
+  | cons x t ih =>
+    rw [Path.cumsum, ih, List.length_cons, List.range_succ_eq_map (n := t.length + 1), List.map_cons, List.map_map]
+    simp only [List.take_zero, List.sum_nil, add_zero, List.cons.injEq, true_and]
+    apply List.map_congr_left
+    intro i _
+    simp only [Function.comp, List.take_succ_cons, List.sum_cons, add_assoc]
+
+theorem sumOf_eq_sum (l : List K) : Np.sumOf l = l.sum := by
+  simp only [Np.sumOf, Nat.cast_zero]
+  rw [List.sum_eq_foldl]
+
+/-- **the generated `arccoord` is the model's** for every string with at least one image. -/
+theorem gen_arccoord_eq_model (p : Path V K) (hc : p.coord ≠ []) : genArccoord dot sqrt p = p.arccoord dot sqrt := by
+  have hd : (Path.diffs p.coord).length + 1 = p.coord.length := by
+    cases hp : p.coord with
+    | nil => exact absurd hp hc
+    | cons a t =>
+      have : ∀ (a : V) (t : List V), (Path.diffs (a :: t)).length = t.length := by
+        intro a t
+        induction t generalizing a with
+        | nil => rfl
+        | cons b t ih => simp [Path.diffs, ih]
+      simp [this]
+  have h1 : (List.replicate p.coord.length (0 : K)).take 1 = [0] := by
+    rw [← hd]; simp [List.replicate_succ]
+  simp only [genArccoord, Path.arccoord, Path.arccoordOf, Np.rowNorms, Np.ew, ← diffs_eq_slices, h1, sumOf_eq_sum,
+    cumsum_eq_prefix_sums, List.length_map, hd, Nat.cast_zero, zero_add, List.singleton_append, List.take_succ_cons,
+    List.sum_cons]
+
+end reads
+
 /-! ### `relax` as a whole -/
 section relax
 variable {K V : Type} [Field K] [LinearOrder K] [IsStrictOrderedRing K] [AddCommGroup V] [Module K V]
